@@ -112,6 +112,23 @@ func NearDup(s NearDupSpec) []byte {
 			p1res = fmt.Sprintf("/Resources<</Font<</F1 %s>>/%s %s>>", Ref(f1), cat2, Ref(sub))
 		}
 		p2res = p1res
+	case "shared-subdict+inherited-other", "shared-resources+inherited-other":
+		// the pages share one dictionary for the category in question while an ancestor node passes down
+		// resources of another category only
+		// (a page's own /Resources replaces the inherited one, so the page dictionary names everything it uses)
+		var body string
+		rootRes = "/Resources<</ExtGState<</GX<</LW 1>>>>>>"
+		if cat2 == "Font" {
+			body = fmt.Sprintf("/Font %s", Ref(d.Add(fmt.Sprintf("<</F1 %s/RA %s/RB %s>>", Ref(f1), Ref(ra), Ref(rb)))))
+		} else {
+			body = fmt.Sprintf("/Font<</F1 %s>>/%s %s", Ref(f1), cat2, Ref(d.Add(fmt.Sprintf("<</RA %s/RB %s>>", Ref(ra), Ref(rb)))))
+		}
+		if s.Placement == "shared-resources+inherited-other" {
+			p1res = "/Resources " + Ref(d.Add("<<"+body+">>"))
+		} else {
+			p1res = "/Resources<<" + body + ">>"
+		}
+		p2res = p1res
 	default: // inherited
 		if cat2 == "Font" {
 			rootRes = fmt.Sprintf("/Resources<</Font<</F1 %s/RA %s/RB %s>>>>", Ref(f1), Ref(ra), Ref(rb))
